@@ -700,10 +700,20 @@ func (f *transformationCallable) Call(argv []reflect.Value) (reflect.Value, erro
 
 	items = arrayify(items)
 
+	// The pattern can reach objects outside the copy, e.g. via
+	// $$ or a variable bound to part of the input. Only objects
+	// that belong to the copy may be modified.
+	owned := make(map[uintptr]bool)
+	collectMaps(obj, owned)
+
 	for i := 0; i < items.Len(); i++ {
 
 		item := jtypes.Resolve(items.Index(i))
 		if !jtypes.IsMap(item) {
+			continue
+		}
+
+		if !owned[item.Pointer()] {
 			continue
 		}
 
@@ -719,6 +729,28 @@ func (f *transformationCallable) Call(argv []reflect.Value) (reflect.Value, erro
 	}
 
 	return obj, nil
+}
+
+// collectMaps records the identity of every map reachable from v
+// through maps and arrays.
+func collectMaps(v reflect.Value, maps map[uintptr]bool) {
+
+	v = jtypes.Resolve(v)
+
+	switch {
+	case jtypes.IsMap(v):
+		if maps[v.Pointer()] {
+			return
+		}
+		maps[v.Pointer()] = true
+		for _, k := range v.MapKeys() {
+			collectMaps(v.MapIndex(k), maps)
+		}
+	case jtypes.IsArray(v):
+		for i := 0; i < v.Len(); i++ {
+			collectMaps(v.Index(i), maps)
+		}
+	}
 }
 
 func (f *transformationCallable) validateArgs(argv []reflect.Value) error {
